@@ -5,7 +5,7 @@
    recursion an explicit `OutOfFuel`.  Statements only; each closed by `exact <lemma>`. *)
 From Coq Require Import List String Bool.
 From Cog Require Import Model.IR Model.Passes Model.Filter Model.Process Model.Builders Model.BuildersEq
-     Model.Spec16 Model.PassesChain Proofs.C04Proofs Proofs.ChainTotalProofs.
+     Model.Spec16 Model.PassesChain Proofs.C04Proofs Proofs.ChainTotalProofs Proofs.ChainPhpJavaProofs Proofs.ChainTotalProofs2.
 Import ListNotations.
 
 (* The user-configurable transformations other than add_fields / constant_to_enum are total
@@ -123,3 +123,19 @@ Proof.
   eexists; exact dataquery_identification_panics.
 Qed.
 Print Assumptions chain_pass_crash_witnesses.
+(* exact success conditions (is_ok' = the decidable condition), and the two remaining reference-following passes *)
+Theorem disjunction_with_null_to_optional_exact : forall ss,
+  is_ok' (disjunction_with_null_to_optional ss) = no_null_null ss.
+Proof. exact dwnto_exact. Qed.
+Print Assumptions disjunction_with_null_to_optional_exact.
+Theorem prefix_enum_values_ok_exactly : forall ss, is_ok' (prefix_enum_values ss) = pev_safe_schemas ss.
+Proof. exact prefix_enum_values_exact. Qed.
+Print Assumptions prefix_enum_values_ok_exactly.
+Theorem inline_objects_with_types_exact : forall kinds ss,
+  is_ok' (inline_objects_with_types kinds ss) = is_ok' (iowt_collect kinds ss).
+Proof. exact iowt_exact. Qed.
+Print Assumptions inline_objects_with_types_exact.
+Theorem remove_intersections_total_on_string_hints : forall ss,
+  ri_hints_ok ss = true -> is_ok' (remove_intersections ss) = true.
+Proof. exact remove_intersections_no_panic. Qed.
+Print Assumptions remove_intersections_total_on_string_hints.
